@@ -1,6 +1,25 @@
+import os, json
+import vlib
 from . import hist
+def cross_history(rep, tier, seed):
+    """several executions of harness/rec_mixed (many groups in one process, different orders): every call must
+    return the same bits in every execution and on every repetition (spec/CrossHistory.tla)"""
+    p, log = vlib.build("rec_mixed", "rec_mixed.cpp", flags=["-std=c++14"])
+    if p is None: raise vlib.BuildError({"rec_mixed": log})
+    wd = vlib.workdir("C09cross")
+    lines = []
+    for k in range(6 if tier == "quick" else 40):
+        op = os.path.join(wd, "mixed_%d.ndjson" % k)
+        r = vlib.sh(["timeout", "300", p, op, str(seed * 1000 + k)])
+        ls = open(op).read().splitlines() if os.path.exists(op) else []
+        if r.returncode != 0: rep.violations.append(("rec_mixed aborted with %d" % r.returncode, json.dumps({"e": "crash"})))
+        lines += [l for l in ls if l.endswith("}")]; rep.traces += 1
+    results, st = vlib.validate_shard(lines, wd, "CrossHistory", 0)
+    rep.states += st[0]; rep.transitions += st[1]
+    return results
 def run(tier, seed):
     return hist.run("C09", tier, seed, [("", [], "g++", [])],
         "behaviours of Manif.tla: all histories of length 2 of the reduced machine explored by TLC; every single call (operation x destination x operand registers x output mask) of the full machine and simulated histories of length 14 replayed on the real library per group; distinct = (group, scalar, op, storage kind of dst/a/b, mask)",
         ["bit-identity across optional-output subsets, storage kinds and repetitions is demanded (sound for builds with -ffp-contract=off; verified on the unchanged tree at -O1)",
-         "operations outside the machine's catalogue (act, adj, tangent arithmetic beyond negation) are covered functionally by C01..C07, not by this history check"])
+         "static helpers shared between groups are exercised by several executions with 21 group types interleaved in different orders (CrossHistory.tla)"],
+        extra=cross_history)
